@@ -33,6 +33,8 @@ type caseC12 struct {
 	Inserted string   // the illegal material
 	Expect   declList // declarations written in Base
 	After    int      // complete declarations after the insertion point
+	Plain    string   // respelled: Base with the chosen identifier replaced by an ordinary fresh one
+	Tricky   string   // respelled / minus-o: the identifier used in Variant
 }
 
 func expectOf(p *ast.Program) declList {
@@ -144,6 +146,38 @@ func checkC12(h *harness.H, ci interface{}) *harness.Failure {
 			msg := compareDecls(c.Expect, v.Dump)
 			return harness.Failf("adding only whitespace/comments between tokens changed the parsed program (%s)\nbase:\n%s\nvariant:\n%s", msg, c.Base, c.Variant)
 		}
+	case "respelled":
+		// an identifier that merely begins like a keyword (or with the `o` of `-o`, or ends in primes)
+		// is an identifier like any other: same verdict and same program, up to the spelling
+		pl, f := call(c.Plain)
+		if f != nil {
+			return f
+		}
+		if !pl.ParseOK {
+			h.S.Count("respelled_control_rejected")
+			return nil
+		}
+		if !v.ParseOK {
+			return harness.Failf("renaming an identifier to %q (everywhere) made the parser reject the text: %s\nwith an ordinary name it is accepted:\n%s\nvariant:\n%s", c.Tricky, v.ParseErr, c.Plain, c.Variant)
+		}
+		a, _ := json.Marshal(pl.Dump)
+		b, _ := json.Marshal(v.Dump)
+		unesc := strings.NewReplacer("\\u003c", "<", "\\u003e", ">", "\\u0026", "&")
+		if replaceWord(unesc.Replace(string(b)), c.Tricky, "qq7") != unesc.Replace(string(a)) {
+			return harness.Failf("the identifier %q is not read like an ordinary identifier: the parsed program differs from the one obtained with the name qq7 in its place\nvariant:\n%s", c.Tricky, c.Variant)
+		}
+	case "minus-o":
+		// `-o` is also a spelling of the lollipop, so a negative polarity glued to a name in o… may
+		// be refused; if it is accepted, no letter of the name may be lost
+		if v.ParseOK {
+			b, _ := json.Marshal(v.Dump)
+			if !strings.Contains(string(b), "\""+c.Tricky+"\"") && !strings.Contains(string(b), "\""+c.Tricky+"|") {
+				return harness.Failf("the text was accepted, but the name %q written in it does not occur in the parsed program\nvariant:\n%s", c.Tricky, c.Variant)
+			}
+			h.S.Count("minus_o_accepted_intact")
+		} else {
+			h.S.Count("minus_o_refused")
+		}
 	case "illegal":
 		if v.ParseOK {
 			msg := compareDecls(c.Expect, v.Dump)
@@ -154,6 +188,54 @@ func checkC12(h *harness.H, ci interface{}) *harness.Failure {
 		}
 	}
 	return nil
+}
+
+var gritsKeywords = map[string]bool{"send": true, "recv": true, "receive": true, "case": true, "close": true, "wait": true, "cast": true, "shift": true,
+	"accept": true, "acc": true, "acquire": true, "acq": true, "detach": true, "det": true, "release": true, "rel": true, "drop": true, "split": true, "push": true,
+	"new": true, "snew": true, "forward": true, "fwd": true, "type": true, "let": true, "in": true, "end": true, "sprc": true, "prc": true, "self": true,
+	"assuming": true, "exec": true, "print": true}
+
+// identifiers that begin like a keyword, like the `o` of `-o`, or that use the rarer characters
+var trickyIdents = []string{"selfie", "self'", "self_", "self1", "newt", "new'", "cases", "lets", "letter", "inn", "in1", "typed", "typesx", "printx", "print'",
+	"waits", "closed", "sender", "sends", "recvx", "receiver", "dropx", "splits", "shifty", "castle", "fwdx", "forwards", "execs", "exec1", "prcs", "prc'",
+	"assumingx", "ends", "sprcx", "snewx", "accept'", "accx", "pushx", "relx", "detx", "acqx", "o", "ok", "out", "o'", "o_1", "oo", "x''", "__t", "X9", "l1n", "a_b'c"}
+
+// words the generator writes in mode positions (valid or not): never respelled
+var synModeWord = map[string]bool{"foo": true, "shared": true, "lin": true, "aff": true, "rep": true, "mul": true}
+
+// replaceWord replaces whole-identifier occurrences of from in s.
+func replaceWord(s, from, to string) string {
+	isId := func(c byte) bool {
+		return c == '_' || c == '\'' || (c >= '0' && c <= '9') || (c >= 'a' && c <= 'z') || (c >= 'A' && c <= 'Z')
+	}
+	var sb strings.Builder
+	for i := 0; i < len(s); {
+		if strings.HasPrefix(s[i:], from) && (i == 0 || !isId(s[i-1])) && (i+len(from) == len(s) || !isId(s[i+len(from)])) {
+			sb.WriteString(to)
+			i += len(from)
+			continue
+		}
+		sb.WriteByte(s[i])
+		i++
+	}
+	return sb.String()
+}
+
+func isPlainIdent(tk string) bool {
+	if tk == "" || gritsKeywords[tk] {
+		return false
+	}
+	c := tk[0]
+	if !(c == '_' || (c >= 'a' && c <= 'z') || (c >= 'A' && c <= 'Z')) {
+		return false
+	}
+	for i := 0; i < len(tk); i++ {
+		c := tk[i]
+		if !(c == '_' || c == '\'' || (c >= '0' && c <= '9') || (c >= 'a' && c <= 'z') || (c >= 'A' && c <= 'Z')) {
+			return false
+		}
+	}
+	return true
 }
 
 func TestC12(t *testing.T) {
@@ -172,7 +254,54 @@ func TestC12(t *testing.T) {
 				declEnd = append(declEnd, len(toks))
 			}
 			c := &caseC12{Base: strings.Join(toks, " "), Expect: expectOf(prog)}
-			switch d.Pick(5, "variant") {
+			switch d.Pick(7, "variant") {
+			case 5: // one identifier respelled everywhere
+				var ids []string
+				seen := map[string]bool{}
+				for _, tk := range toks {
+					if isPlainIdent(tk) && !seen[tk] {
+						seen[tk] = true
+						if _, isMode := ast.ModeOfWord(strings.ToLower(tk)); !isMode && !synModeWord[strings.ToLower(tk)] {
+							ids = append(ids, tk)
+						}
+					}
+				}
+				if len(ids) == 0 {
+					return nil
+				}
+				from := ids[d.Pick(len(ids), "ident")]
+				c.Kind, c.Tricky = "respelled", d.Of(trickyIdents, "tricky")
+				if seen[c.Tricky] || seen["qq7"] {
+					return nil
+				}
+				rep := func(to string) string {
+					out := make([]string, len(toks))
+					for i, tk := range toks {
+						if tk == from {
+							tk = to
+						}
+						out[i] = tk
+					}
+					return strings.Join(out, " ")
+				}
+				c.Variant, c.Plain = rep(c.Tricky), rep("qq7")
+				// the declaration lists of Base no longer apply to the renamed texts
+				c.Expect = expectOf(prog)
+			case 6: // a negative polarity glued to a name that starts with o
+				var at []int
+				for i := 0; i+1 < len(toks); i++ {
+					if isPlainIdent(toks[i+1]) && (toks[i] == "<" || toks[i] == "," || toks[i] == "wait" || toks[i] == "drop" || toks[i] == "self") {
+						at = append(at, i+1)
+					}
+				}
+				if len(at) == 0 {
+					return nil
+				}
+				i := at[d.Pick(len(at), "where")]
+				c.Kind, c.Tricky = "minus-o", d.Of([]string{"out", "ok", "o1", "o'", "oo", "o_x"}, "oname")
+				out := append([]string{}, toks...)
+				out[i] = "-" + c.Tricky
+				c.Variant = strings.Join(out, " ")
 			case 0:
 				c.Kind, c.Variant = "plain", c.Base
 			case 1, 2:
